@@ -394,6 +394,9 @@ def check(case):
         for key in ("written in multiple contexts", "assignment to port", "no definition provided", "type mismatch"):
             if key in msg:
                 cls = key.replace(" ", "_")
+        if cls == "other":
+            import re
+            cls = "other:" + e.exc_type + ":" + re.sub(r"[^A-Za-z ]+", "", msg.split(":", 1)[-1])[:48].strip().replace(" ", "_")
         out.labels.append(f"rejected:{cls}")
         return out
 
